@@ -27,7 +27,9 @@ TECHNIQUE = ("exhaustive enumeration of all (P,S) programs x deviation-bounded p
              "results() are re-derived from call_Fq on P alone and call_kernel on S alone")
 RULE = ("[dev] every (P,S) pair x every combination of <=D dimensions off default (ER mode, beta, P dispersity x2, "
         "S.radius_effective dispersity, S parameters, P sizes, volfraction, user radius_effective, 2-D, jitter, magnetic P); "
-        "[mesh] P meshes of 101, 132, 11x11, 12x11 points x every effective-radius mode x (1-D, 1-D beta, 2-D); "
+        "[vanish] P vanishing exactly (contrast matched; empty dispersity mesh) x every effective-radius mode x (1-D, 1-D beta, "
+        "2-D): the result must be the background wherever S is finite (a non-finite result against a finite reference is "
+        "a violation everywhere); [mesh] P meshes of 101, 132, 11x11, 12x11 points x every effective-radius mode x (1-D, 1-D beta, 2-D); "
         "[mixed] every pure-Python P x 4 S built with dtype='single' (P double, S single), default + each single deviation, "
         "judged by the usual recombination with the single-precision S evaluated alone (finite wherever that is); "
         "[reuse] one kernel object evaluated for A then B, B differing in exactly one setting, both orders, and A a "
@@ -136,6 +138,33 @@ def _default_cfg(ctx, p, s):
     return {d[0]: d[1] for d in _dims(ctx, p, s)}
 
 
+def _vanish_alts(p):
+    pinfo = build.info(p)
+    alts = []
+    if any(q.type == "sld" for q in pinfo.parameters.call_parameters) and p not in SLOW_P:
+        alts.append("contrast")          # every SLD equal to the solvent's: <F>, <F^2> exactly zero
+    if disp_names(pinfo):
+        alts.append("empty")             # dispersity distribution wholly outside the limits: empty mesh
+    return alts
+
+
+def _vanish_cases(ctx, p, s):
+    """P that vanishes exactly x every effective-radius mode x (1-D, 1-D beta, 2-D): the answer is the background"""
+    pinfo = build.info(p)
+    nmodes = len(pinfo.radius_effective_modes) if pinfo.radius_effective_modes is not None else 0
+    variants = [("1d", 0)] + ([("1d", 1)] if pinfo.have_Fq else []) + [("2d", 0)]
+    for alt in _vanish_alts(p):
+        for mode in range(0, nmodes + 1):
+            for dim, beta in variants:
+                cfg = _default_cfg(ctx, p, s)
+                cfg.update(vanish=alt, dim=dim)
+                if nmodes:
+                    cfg["er_mode"] = mode
+                if pinfo.have_Fq:
+                    cfg["beta"] = beta
+                yield {"kind": "vanish", "P": p, "S": s, "cfg": cfg}
+
+
 def _mesh_cases(ctx, p, s):
     """dispersity meshes beyond the 100-point chunk of the DLL driver x every effective-radius mode x (1-D, 1-D beta, 2-D)"""
     pinfo = build.info(p)
@@ -234,6 +263,7 @@ def cases(ctx):
                 out.extend(_mesh_cases(ctx, p, s))
             if p in QUICK_P or not ctx.quick:
                 out.extend(_reuse_cases(ctx, p, s))
+            out.extend(_vanish_cases(ctx, p, s))
     return out
 
 
@@ -388,6 +418,21 @@ def _pars(pname, sname, cfg):
         v = ppars[dn[0]] * cfg["P1"]
         lo, hi = par.limits if par is not None else (0, np.inf)
         ppars[dn[0]] = v if lo <= v <= hi else ppars[dn[0]]
+    vanish_pd = {}
+    if cfg.get("vanish") == "contrast":
+        slds = [q.name for q in pinfo.parameters.call_parameters if q.type == "sld"]
+        solvent = [q for q in slds if "solvent" in q]
+        for q in slds:
+            ppars[q] = ppars[solvent[0] if solvent else slds[0]]
+    elif cfg.get("vanish") == "empty":
+        par = _call_par(pinfo, dn[0])
+        lo = par.limits[0]
+        centre = (lo if np.isfinite(lo) else 0.0) - abs(ppars[dn[0]]) - 1.0
+        x, _ = refmodel.par_dist(par, "gaussian", 3, 0.1, 2.0, centre)
+        if len(x) != 0 or not np.isfinite(lo):
+            raise HarnessError("cannot empty the mesh of %s.%s" % (pname, dn[0]))
+        ppars[dn[0]] = centre
+        vanish_pd = {dn[0] + "_pd": 0.1, dn[0] + "_pd_n": 3, dn[0] + "_pd_type": "gaussian", dn[0] + "_pd_nsigma": 2.0}
     if p_has_vf:
         ppars["volfraction"] = pinfo.parameters["volfraction"].default * cfg["vf"]
     pd = {}
@@ -404,6 +449,7 @@ def _pars(pname, sname, cfg):
         for nm in many:
             pd.update({nm + "_pd": 4.0 if nm in ("theta", "phi", "psi") else 0.05, nm + "_pd_n": 2,
                        nm + "_pd_type": "gaussian"})
+    pd.update(vanish_pd)
     spec = {}        # explicit (type, n, width, nsigmas) per parameter for the single-point reference mean
     if cfg.get("mesh"):
         pd = {}
@@ -491,7 +537,8 @@ def _judge(r, pname, sname, cfg, k_ps=None, reuse=None, single=False):
     if want_refusal:
         return r.fail("%s: beta approximation accepted for 2-D data (documented as not supported); result %s"
                       % (desc, impl), dict(fk, clause="beta-2d-accepted"), branches=br)
-    results = k_ps.results()
+    with np.errstate(all="ignore"):
+        results = k_ps.results()
 
     # ---- oracle: P alone
     k_p = _kernel(pname, dim)
@@ -563,6 +610,20 @@ def _judge(r, pname, sname, cfg, k_ps=None, reuse=None, single=False):
         br.append("python-P")
     if dim == "2d":
         br.append("2d")
+    if cfg.get("vanish"):
+        if np.all(F2 == 0.0) and (F1 is None or np.all(F1 == 0.0)):
+            br.append("vanishing-P")
+            br.append("vanishing-P:" + cfg["vanish"])
+            if beta:
+                br.append("vanishing-P-beta")
+            if np.all(np.isfinite(Sq)):
+                br.append("vanishing-P-finite-S")       # the reference is then exactly the background
+                if not np.all(ref == BACKGROUND):
+                    raise HarnessError("reference for a vanishing P with finite S is not the background")
+            else:
+                br.append("vanishing-P-nonfinite-S")
+        else:
+            br.append("vanish-not-exact")
     both_nan = bool(np.all(np.isnan(impl)) and np.all(np.isnan(ref)))
     if both_nan:
         br.append("nan-both-sides")
@@ -651,6 +712,10 @@ def _call_par(info, name):
 
 
 def finish(ctx, report):
+    report.require("vanishing-P-finite-S", 300, "P vanishing exactly, S finite: the answer is the background")
+    report.require("vanishing-P-beta", 100, "... with the beta approximation")
+    report.require("vanishing-P:contrast", 100, "contrast-matched P")
+    report.require("vanishing-P:empty", 100, "empty dispersity mesh of P")
     report.require("mesh>100-modeP-Fq1d", 50, "P mesh beyond the 100-point driver chunk, R_eff from P, <F>/<F^2> kernel, 1-D")
     report.require("mesh>100-modeP", 100, "P mesh beyond the 100-point driver chunk, R_eff from P")
     report.require("mixed-precision", 200, "double-precision (pure-Python) P with single-precision S")
